@@ -11,6 +11,7 @@ import Driver.UnwrapD
 import Driver.FrameD
 import Driver.MultiRefD
 import Driver.IsolationD
+import Driver.WsdlD
 /-! Line-protocol driver: one JSON object per stdin line, one per stdout line. -/
 open Lean Driver
 
@@ -37,6 +38,7 @@ def dispatch (j : Json) : R Json := do
   | "xop" => xopRun j
   | "attachment" => attachmentRun j
   | "isolation.run" => isolationRun j
+  | "wsdl.exposed" => wsdlExposed j
   | _ => throw s!"unknown op {op}"
 
 def handleLine (line : String) : String :=
